@@ -737,6 +737,23 @@ def decide_case(case, opts):
                 if verdict.status == "sat":
                     cand_point = dict(pr.model)
                     cand_point.update(verdict.point)
+                elif verdict.status == "unknown" and len(pairs) + len(claims) > 1:
+                    # the disjunction of all goals was too much for one query: one query per goal (the conjunction of the
+                    # individual unsat answers is the same claim)
+                    statuses = []
+                    for one in [([pq], []) for pq in pairs] + [([], [cl]) for cl in claims]:
+                        v1 = lw.decide(one[0], assumptions, timeout_ms=opts.timeout_ms, box=None if claims else opts.box,
+                                       claims=one[1], twin=False)
+                        statuses.append(v1.status)
+                        if v1.status == "sat":
+                            verdict = v1
+                            cand_point = dict(pr.model)
+                            cand_point.update(v1.point)
+                            break
+                        if v1.status == "unknown":
+                            break
+                    if cand_point is None and statuses and all(st_ == "unsat" for st_ in statuses) and len(statuses) == len(pairs) + len(claims):
+                        verdict = lw.Verdict("unsat", None, 0.0, verdict.twin, "decided goal by goal", len(statuses))
         except Unsupported as e:
             res["inconclusive"].append("lowering: %r" % (e,))
             continue
